@@ -121,17 +121,17 @@ def run(ctx):
     mcs += [("MCQ_P2i.cfg", ["Setup", "Cycle", "HubSelect"]), ("MCQ_P3i.cfg", ["Setup", "Cycle", "HubSelect"]),
             ("MC_Tt.cfg", TIM + ["Idle"]), ("MC_Q1i.cfg", FULL), ("MC_Q1t.cfg", FULL + ["Idle"])]
   # (cfg, adapter params, cap in quick)
-  exs = [("EX_Q1i.cfg", pi, 2500), ("EX_Q1t.cfg", pt, 2000), ("EX_S2i.cfg", pi, 3000),
-         ("EX_IO1i.cfg", pi, 2000), ("EX_IO2si.cfg", pi, 1500),
+  exs = [("EX_Q1i.cfg", pi, 1600), ("EX_Q1t.cfg", pt, 1300), ("EX_S2i.cfg", pi, 1800),
+         ("EX_IO1i.cfg", pi, 1300), ("EX_IO2si.cfg", pi, 1000),
          # sub-functions that call sub-functions (nested Again): results and exceptions reach exactly the caller
-         ("EX_N2i.cfg", pi, 1500),
-         ("EX_Ti.cfg", pi, 1500), ("EX_Tt.cfg", pt, 1000),
+         ("EX_N2i.cfg", pi, 1000),
+         ("EX_Ti.cfg", pi, 1200), ("EX_Tt.cfg", pt, 1000),
          # the same hub with use_epoll=True: pox.lib.epoll_select.EpollSelect must behave like select()
-         ("EX_IO1i.cfg", dict(pi, epoll=True), 1500),
+         ("EX_IO1i.cfg", dict(pi, epoll=True), 1000),
          # read and write interest in the same socket (two tasks / one after the other), both select implementations
-         ("EX_RW2i.cfg", pi, 1500), ("EX_RW2i.cfg", dict(pi, epoll=True), 1500), ("EX_RW2t.cfg", dict(pt, epoll=True), 1000),
+         ("EX_RW2i.cfg", pi, 900), ("EX_RW2i.cfg", dict(pi, epoll=True), 900), ("EX_RW2t.cfg", dict(pt, epoll=True), 600),
          # priorities below 1: 2 tasks (both low) and 3 tasks (all low); the random draws are scripted by the spec
-         ("EX_P2qi.cfg", pi, 1500), ("EX_P3qi.cfg", pi, 1500)]
+         ("EX_P2qi.cfg", pi, 1000), ("EX_P3qi.cfg", pi, 1000)]
   if not quick:
     exs += [("EX_P2i.cfg", pi, 60000), ("EX_P2ai.cfg", pi, 60000), ("EX_P3i.cfg", pi, 60000), ("EX_P3ai.cfg", pi, 60000),
             ("EX_N2t.cfg", pt, 2000), ("EX_S2t.cfg", pt, 2000), ("EX_IO2st.cfg", pt, 1500), ("EX_Q1t.cfg", dict(pt, epoll=True), 1500)]
@@ -158,6 +158,11 @@ def run(ctx):
   _t0 = _t.time()
   res = tlc.run_many(jobs, parallel=8)
   ctx.notes["tlc_stage_s"] = round(_t.time() - _t0, 1)
+  # the parsed TLC output is a large, static heap that every replay worker inherits by fork: collect once here and
+  # keep it out of the collector's way, instead of letting each worker of each replay call walk it again
+  import gc
+  gc.collect()
+  gc.freeze()
   k = 0
   for c, a in mcs:
     model_check(ctx, c, a, res=res[k])
